@@ -215,15 +215,24 @@ const (
 
 const poolCap = 64
 
-// poolItem travels with its own "edge": Put locks/unlocks it after storing,
-// Get locks/unlocks it before handing the object out, which gives the race
-// detector the edge putter -> getter of this very item (what the real pool
-// provides) and nothing else.
+// poolItem remembers which "edge" it was published through: Put locks/unlocks
+// edge e after storing, Get locks/unlocks the same edge before handing the
+// object out, which gives the race detector the edge putter -> getter of this
+// item. Edges are a fixed package-level array (a mutex allocated by the putter
+// would itself be published without synchronisation); items share them round
+// robin, as the real pool shares its 128 race addresses between objects.
 type poolItem struct {
 	x    interface{}
 	by   int32
-	edge sync.Mutex
+	edge int32
 }
+
+const nPoolEdges = 256
+
+var (
+	poolEdges [nPoolEdges]sync.Mutex
+	poolEdgeN int32
+)
 
 type Pool struct {
 	New func() interface{}
@@ -301,16 +310,16 @@ func (p *Pool) Get() interface{} {
 		}
 		return x
 	}
-	it := poolChooseGet(p)
-	if it == nil {
+	x, e := poolChooseGet(p)
+	if e < 0 {
 		if p.New == nil {
 			return nil
 		}
 		return p.New()
 	}
-	it.edge.Lock()
-	it.edge.Unlock() //nolint:staticcheck // empty critical section: only the happens-before edge is wanted
-	return it.x
+	poolEdges[e].Lock()
+	poolEdges[e].Unlock() //nolint:staticcheck // empty critical section: only the happens-before edge is wanted
+	return x
 }
 
 func (p *Pool) Put(x interface{}) {
@@ -321,20 +330,20 @@ func (p *Pool) Put(x interface{}) {
 	if x == nil {
 		return
 	}
-	if !poolAdmit(p) {
+	e := poolAdmit(p)
+	if e < 0 {
 		return // dropped, as the real pool may
 	}
-	it := &poolItem{x: x}
-	it.edge.Lock()
-	it.edge.Unlock() //nolint:staticcheck
-	poolStore(p, it)
+	poolEdges[e].Lock()
+	poolEdges[e].Unlock() //nolint:staticcheck
+	poolStore(p, x, e)
 	if schedOn {
 		Yield(sitePoolPut)
 	}
 }
 
 //go:norace
-func poolChooseGet(p *Pool) *poolItem {
+func poolChooseGet(p *Pool) (interface{}, int32) {
 	registerPool(p)
 	if schedOn {
 		Yield(sitePoolGet)
@@ -342,7 +351,7 @@ func poolChooseGet(p *Pool) *poolItem {
 	nPoolGet++
 	n := p.n
 	if n == 0 {
-		return nil
+		return nil, -1
 	}
 	// choices: 0 = most recent, 1..n-1 = older ones (n-1 = oldest), n = New
 	prop := 0
@@ -366,7 +375,7 @@ func poolChooseGet(p *Pool) *poolItem {
 	}
 	c := Decide(KPoolGet, 0, n+1, prop)
 	if c == n {
-		return nil
+		return nil, -1
 	}
 	i := n - 1 - c
 	it := p.items[i]
@@ -382,11 +391,11 @@ func poolChooseGet(p *Pool) *poolItem {
 	}
 	p.n--
 	p.items[p.n] = nil
-	return it
+	return it.x, it.edge
 }
 
 //go:norace
-func poolAdmit(p *Pool) bool {
+func poolAdmit(p *Pool) int32 {
 	registerPool(p)
 	drop := 0
 	if poolDropProb > 0 && RandN(1000) < poolDropProb {
@@ -396,18 +405,21 @@ func poolAdmit(p *Pool) bool {
 	if poolDropProb > 0 {
 		if Decide(KPoolDrop, 0, 2, drop) == 1 {
 			nPoolDrop++
-			return false
+			return -1
 		}
 	}
-	return !full
+	if full {
+		return -1
+	}
+	poolEdgeN = (poolEdgeN + 1) % nPoolEdges
+	return poolEdgeN
 }
 
 //go:norace
-func poolStore(p *Pool, it *poolItem) {
+func poolStore(p *Pool, x interface{}, e int32) {
 	if p.n >= poolCap {
 		return
 	}
-	it.by = int32(curG)
-	p.items[p.n] = it
+	p.items[p.n] = &poolItem{x: x, by: int32(curG), edge: e}
 	p.n++
 }
